@@ -263,6 +263,17 @@ fn bounded_c04(maxlen: usize) -> (usize, usize, bool) {
         if !ok {
             continue;
         }
+        // the formal definition of the expansion (dhas) against the operational left-to-right one: same set of strings
+        let mut a = oracle::expand(&p);
+        let mut b = oracle::expand_d(&p);
+        a.sort();
+        a.dedup();
+        b.sort();
+        b.dedup();
+        if a != b {
+            println!("SPEC-MISMATCH C04 pattern={:?} operational={:?} denotational={:?}", p, a, b);
+            std::process::exit(3);
+        }
         for n in names {
             evals += 1;
             if !check_pattern(&p, n, true) {
